@@ -94,6 +94,14 @@ pub fn explore_case(desc: String, base: &RunCfg, max_paths: u64, body: &dyn Fn()
                 c.fail("panic", format!("the scenario panicked: {m}"), engine);
             }
             c.confirm_path();
+            if std::env::var("SYMFROST_DUMP").is_ok() {
+                for o in c.obligations.iter() {
+                    eprintln!("  [{}] {} {} :: {}", o.rule, if o.ok { "ok  " } else { "FAIL" }, o.label, o.detail.chars().take(200).collect::<String>());
+                }
+                for a in c.assumptions.iter() {
+                    eprintln!("  assume {a}");
+                }
+            }
             c.stats.nodes = c.nodes.len() as u64;
             add_stats(&mut res.stats, &c.stats);
             for f in c.failures.drain(..) {
